@@ -59,6 +59,8 @@ class Profile:
         self.p_loader_fail = 0.0
         self.p_valid = 0.85              # make required points satisfiable
         self.proc_points = 0.0           # processors with injection points (KF-C05a)
+        self.p_case_variant = 0.15       # custom names differing only in letter case
+        self.p_twin = 0.15               # a type with exactly the field layout of another one (convertible pointer types)
         self.perms = 1
         self.__dict__.update(kw)
 
@@ -106,6 +108,10 @@ def gen_scenario(rng, sid, pf):
     def fresh_name():
         while True:
             n = rng.choice(NAME_POOLS) + str(rng.randint(0, 99))
+            if used_names and rng.random() < pf.p_case_variant:
+                # a name that differs from an existing one only in letter case (byte order still separates them)
+                base = rng.choice(sorted(used_names))
+                n = base.upper() if base != base.upper() else base.lower()
             if n not in used_names:
                 used_names.add(n)
                 return n
@@ -208,6 +214,25 @@ def gen_scenario(rng, sid, pf):
             for _ in range(rng.randint(1, 2)):
                 t["cfields"].append({"prefix": rng.random() < 0.4, "required": rng.random() >= pf.p_optional,
                                      "sat": rng.random() >= pf.p_cfg_unsat})
+    # layout twins: same fields, same embedded mixins => *T_a is convertible (not assignable) to *T_b
+    import copy as _copy
+    twins = {}
+    for ti in plain:
+        if ti > 0 and rng.random() < pf.p_twin:
+            src = rng.choice([x for x in plain if x < ti] or [ti])
+            if src != ti and types[src]["runner"] == types[ti]["runner"]:
+                types[ti]["fields"] = _copy.deepcopy(types[src]["fields"])
+                types[ti]["cfields"] = _copy.deepcopy(types[src]["cfields"])
+                twins[ti] = src
+                twins.setdefault(src, ti)
+    if twins:
+        # point some by-name fields at a component of the twin type (present, incompatible, same layout)
+        for ti, t in enumerate(types):
+            for p in t["fields"]:
+                if p["sel"][0] == "name" and p["target"][0] == "ptr" and rng.random() < 0.5:
+                    named = [ci for ci in range(len(comps)) if regname(ci) == p["sel"][1]]
+                    if named and comps[named[0]]["type"] in twins:
+                        p["target"] = ("ptr", twins[comps[named[0]]["type"]])
     # processors' behaviour
     targets = [i for i, c in enumerate(comps) if not types[c["type"]]["proc"]]
     for ci, c in enumerate(comps):
@@ -726,8 +751,10 @@ def run_batch(ctx, binp, cfgs, tag, case_timeout="10s"):
             results[last_started["id"]] = {"id": last_started["id"], "outcome": kind,
                                            "errtext": tail[:300], "log": [], "fields": [], "lookups": []}
         start = last_started["index"] + 1
-        if restarts > 200:
-            raise vlib.GoBuildError("scenario runner", "too many restarts")
+        if restarts > 25:
+            # enough crashed / hung scenarios to decide; the rest of the batch is not run
+            print("[wiring] scenario runner: %d crashes/hangs, remaining %d scenarios skipped" % (restarts, len(cfgs) - start), flush=True)
+            break
     return results
 
 
@@ -839,7 +866,7 @@ def run_family(ctx, check_module, make_scenarios, rule, assumptions=None, classi
                        assumptions=assumptions)
 
 
-def shrink_scenario(ctx, case, check_module, rounds=12):
+def shrink_scenario(ctx, case, check_module, rounds=5):
     """greedy: drop fields / components while the oracle still fails"""
     import copy
     cur = case
